@@ -347,6 +347,9 @@ def run(ctx) -> str:
     from . import c03
 
     ctx.guarded("R6-mexpr-placeholder", lambda: c03.rule_e10(ctx, "R6"))
+    from ..generic import check_optional_path_truthiness
+
+    ctx.guarded("R9", lambda: ctx.inventory.__setitem__("find_node_calls", check_optional_path_truthiness(ctx, "R9-root-path-falsy", ["src/isla/language.py", "src/isla/evaluator.py", "src/isla/solver.py", "src/isla/existential_helpers.py", "src/isla/derivation_tree.py"], min_sources=20)))
     ctx.guarded("inventory", lambda: inventory_raises(ctx))
     ctx.assume("constraint in the supported fragment; asserts are developer contracts")
     ctx.assume("call-graph resolution is name based (over-approximate reachability)")
